@@ -45,6 +45,42 @@ def thread_oracle(line):
     return probs, len(succ)
 
 
+def multi_oracle(line):
+    """m-lines, property level: a write to a path succeeds only with the latest version the server reported for that path
+    (paths not touched by a rename / delete keep their history)"""
+    parts = line.split(":")
+    t = [int(x) for x in parts[1].split()]
+    i = 1
+    for _ in range(t[0]):
+        i += 2 + t[i + 1]
+    calls = []
+    while i < len(t):
+        w = {0: 3, 1: 5, 2: 4, 3: 3, 4: 5, 5: 3}.get(t[i], 2); calls.append(t[i:i + w]); i += w
+    o = [int(x) for x in parts[2].split()]; j = 0
+    last = {}
+    probs = []
+    for c in calls:
+        if j >= len(o): break
+        code = o[j]; n = {0: 3, 1: 2}.get(code, 1); out = o[j:j + n]; j += n
+        if c[0] in (0, 1):
+            k = (c[1], c[2])
+            if c[0] == 1 and code == 0 and k in last and c[3] != last[k]:
+                probs.append("write to %s/f%d with expected version %d succeeded although the latest version reported for that path was %d: an edit was overwritten unseen" % (["lib", "lib_io", "lib2", "core", "core_x", "li"][k[0]], k[1], c[3], last[k]))
+            if code == 0: last[k] = out[1]
+            elif code == 1: last[k] = out[1]
+        elif c[0] == 2 and code == 5:
+            last.pop((c[1], c[2]), None)                      # edited outside the IDE: the next request bumps the version
+        elif c[0] == 3 and code == 5:
+            for k in [k for k in last if k[0] in (c[1], c[2])]: last.pop(k)
+        elif c[0] == 4 and code == 5:
+            last.pop((c[1], c[2]), None); last.pop((c[3], c[4]), None)
+        elif c[0] == 5 and code == 5:
+            last.pop((c[1], c[2]), None)
+        elif c[0] == 6 and code == 5:
+            for k in [k for k in last if k[0] == c[1]]: last.pop(k)
+    return probs
+
+
 def check(tier):
     t0 = time.time()
     sd = vlib.seed()
@@ -64,7 +100,7 @@ def check(tier):
     errors = [r for r in results if "error" in r]
     good = [r for r in results if "error" not in r]
     pbad = [r for r in good if r["id"].startswith("p") and not r["spec_ok"]]
-    dbad = [r for r in good if r["id"].startswith("d") and r["impl"] != r["model"]]
+    dbad = [r for r in good if r["id"][0] in "dm" and r["impl"] != r["model"]]
     tbad, nsucc = [], 0
     for l in tlines:
         probs, n = thread_oracle(l)
@@ -85,7 +121,13 @@ def check(tier):
         lines = [x["line"] for x in good if x["id"].split(".")[0] == base]
         path = vlib.write_replay(PROP, {"property": PROP, "what": "; ".join(what), "failing_call": r["id"], "case_lines": lines, "model": r["model"], "format": FMT, "failing_calls": len(pbad)})
         violations.append((path, what[0], False))
-    if dbad:
+    mprobs = [(r, multi_oracle(r["line"])) for r in good if r["id"].startswith("m")]
+    mprobs = [(r, p) for r, p in mprobs if p]
+    if mprobs:
+        r, probs = mprobs[0]
+        path = vlib.write_replay(PROP, {"property": PROP, "what": probs[:4], "case_lines": [r["line"]], "impl": r["impl"], "model": r["model"], "format": FMT})
+        violations.append((path, probs[0], False))
+    elif dbad:
         r = dbad[0]
         path = vlib.write_replay(PROP, {"property": PROP, "broken": "correspondence Model/WebIde.v (documents) <-> open_source/apply_source", "case_lines": [r["line"]], "impl": r["impl"], "model": r["model"], "format": FMT})
         violations.append((path, "versions / conflicts of a sequential open-apply-external history differ from the model", True))
@@ -115,6 +157,7 @@ def check(tier):
         "rule": "a project nested in a sentinel tree (outside files, hidden entries, symbolic links to an outside file, an outside directory, an inside file and a dangling outside target); per case 1-4 calls of open / apply / create file / create directory / delete / rename / list tree / list sources / search by an editor, viewer or unknown (= expired) session, write-enabled or not, on generated path strings ('..', '.', '//', absolute, backslash, Unicode and NBSP/ideographic-space padding, NUL, hidden names, 2500-component paths, the links); the whole tree is snapshotted before and after every call; sequential open/apply/external-edit histories with arbitrary expected versions compared with the model; 2-6 honest optimistic writer threads (5-40 writes, some with 200 kB files) judged by the no-lost-update oracle; non-trivial = accepted or refused-as-forbidden calls, document histories, thread runs",
         "path_calls": len(pg), "outcome_classes": cls, "operations": ops,
         "document_histories": len([r for r in good if r["id"].startswith("d")]),
+        "multi_document_rename_histories": len([r for r in good if r["id"].startswith("m")]),
         "thread_runs": len(tlines), "successful_concurrent_writes": nsucc,
         "samples": [r["line"][:200] for r in good[:2]],
         "judge_failures": len(pbad), "document_disagreements": len(dbad), "thread_oracle_failures": len(tbad),
@@ -141,7 +184,7 @@ def replay(path):
     open(tmp, "w").write("\n".join(obj["case_lines"]) + "\n")
     f = run_shard(harness, 99, 0, 1, replay_file=tmp)
     rr = vlib.corr_judge(driver, f)
-    bad = [r for r in rr if "error" in r or not r["spec_ok"] or (r["id"].startswith("d") and r["impl"] != r["model"])]
+    bad = [r for r in rr if "error" in r or not r["spec_ok"] or (r["id"][0] in "dm" and r["impl"] != r["model"])]
     print(json.dumps(rr, indent=1)[:4000])
     if bad:
         print("VIOLATION property=C19 replay=%s" % path)
